@@ -283,13 +283,13 @@ def gen_kinds(rng, exact):
     a list of lists / integer / float ndarray, the query grids integer-typed / float32 / lists; half of the geometries are INTEGRAL (integer
     scales, origins and query coordinates) so that the integer kinds apply; fully masked masks and 1 x 1 shapes are included"""
     mode = rng.random()
-    integral = mode < 0.35                   # everything integral
+    integral = mode < 0.25                   # everything integral
     intpts = mode < 0.7                      # integer query coordinates (in a geometry with non-integral origin / scales when not `integral`)
     (H, W), (sy, sx), (oy, ox) = rand_geom(rng, exact)
     if rng.random() < 0.08: H = W = 1
     if intpts and not integral and exact:
         # power-of-two scales, origin a quarter-pixel multiple: (integer - origin) / scale is exact
-        sy, sx = Fraction(rng.choice([1, 2, 4, 8, 16]), 4), Fraction(rng.choice([1, 2, 4, 8, 16]), 4)
+        sy, sx = Fraction(rng.choice([1, 1, 2, 2, 4, 8, 16]), 4), Fraction(rng.choice([1, 1, 2, 2, 4, 8, 16]), 4)     # mostly <= 1: an integer coordinate shifted by a fraction changes pixel
         oy, ox = sy * Fraction(rng.randint(-12, 12), 4), sx * Fraction(rng.randint(-12, 12), 4)
     if integral:
         sy, sx = (Fraction(rng.choice([1, 2, 4])), Fraction(rng.choice([1, 2, 4]))) if exact else (Fraction(rng.choice([1, 2, 3, 5])), Fraction(rng.choice([1, 2, 3, 7])))
@@ -317,7 +317,7 @@ def gen_kinds(rng, exact):
     yield {"op": "kinds", "exact": exact, "shape": [H, W], "s": [S(sy), S(sx)], "o": [S(oy), S(ox)], "m": m, "kinds": kinds,
            "pts": pts, "pix": pix, "gk": [rng.choice(GRID_KINDS) for _ in range(4)],
            # every query coordinate in its own representation, an integer one among them
-           "ck": [rng.choice(["int", "ndint", "npint"])] + [rng.choice(seq) for _ in range(2)], "pk": [rng.choice(["int", "ndint", "npint"])] + [rng.choice(seq) for _ in range(3)],
+           "ck": [rng.choice(["int", "ndint", "npint"]), rng.choice(["int", "ndint", "npint"]), rng.choice(["int", "ndint", "npint", "list", "nd"]), rng.choice(seq)], "pk": [rng.choice(["int", "ndint", "npint"])] + [rng.choice(seq) for _ in range(3)],
            "cont": [rng.choice(factor_pairs(len(pts))), rng.choice(factor_pairs(len(pix)))]}
 
 def gen_kinds1(rng, exact):
@@ -929,7 +929,7 @@ def run_case(inp):
         def with_kind(which, k, f):
             g2.kinds[which] = k
             return f()
-        steps += [(lambda c=c, i=i: with_kind("c", inp["ck"][i % len(inp["ck"])], lambda: g2.pix(c, bool(i % 2)))) for i, c in enumerate(inp["pts"][:3])]
+        steps += [(lambda c=c, i=i: with_kind("c", inp["ck"][i % len(inp["ck"])], lambda: g2.pix(c, bool(i % 2)))) for i, c in enumerate(inp["pts"][:4])]
         steps += [(lambda p=p, i=i: with_kind("p", inp["pk"][i % len(inp["pk"])], lambda: g2.scaled(p, bool(i % 2)))) for i, p in enumerate(inp["pix"])]
         gk = inp["gk"]; c0, c1 = inp["cont"]
         steps += [lambda: g2.grid("gridpixels", grid_obj(aa, inp["pts"], c0, gk[0], exact)), lambda: g2.grid("gridcentres", grid_obj(aa, inp["pts"], c0, gk[1], exact), False),
